@@ -4,21 +4,34 @@ From KB Require Import Base.Cases Model.Coder Model.CompactSys Model.C07Cases Mo
   Proofs.Coder Proofs.CompactSafe Proofs.CompactWf Proofs.CompactPass Proofs.CompactExpiry.
 Local Open Scope N_scope.
 
-(* what the code guarantees, for every store, mark queue, wall time, fault placement and interleaving:
-   (C17_not_young) the timeout revision is 0 or the revision of a mark at least ttl old (and 0 on engines
-   with native TTL); every engine delete of scanner.Compact is a compaction target (C07) or targets a
-   stored record of a key CONTAINING "/events/" whose revision is at most that timeout revision *)
-Theorem C17_scanner_expiry_targets : forall sup ttl now R lo hi q V oc,
-  let '(q', tr, d) := scanner_compact sup ttl now R lo hi q (init_d V oc) in
+(* C17_only_events + C17_not_young, scanner path, at full strength, for every store, mark queue, wall time,
+   fault placement and interleaving: with the scanner configured by the backend (EventsPrefix =
+   <prefix>/events/), the timeout revision is 0 or the revision of a mark at least ttl old (and 0 on engines
+   with native TTL); every engine delete of scanner.Compact is a compaction target (C07) or targets a stored
+   record of an Event key - a key under <prefix>/events/ - whose revision is at most that timeout revision *)
+Theorem C17_only_events : forall prefix sup ttl now R lo hi q V oc,
+  let '(q', tr, d) := scanner_compact (events_prefix prefix) sup ttl now R lo hi q (init_d V oc) in
+  Forall (fun s => (is_event_key prefix (rkey (ds_target s)) = true /\ rec_rev (ds_target s) <= tr /\ tr <> 0 /\
+                    In (ds_target s) V)
+                   \/ compaction_target R (ds_target s)) (d_trace d).
+Proof. exact scanner_only_events. Qed.
+Print Assumptions C17_only_events.
+
+(* the same for any EventsPrefix (empty = nothing expires), with the bound on the timeout revision *)
+Theorem C17_scanner_expiry_targets : forall evp sup ttl now R lo hi q V oc,
+  let '(q', tr, d) := scanner_compact evp sup ttl now R lo hi q (init_d V oc) in
   (tr = 0 \/ (sup = false /\ exists t, In (tr, t) (q ++ [(R, now)]) /\ ttl <= now - t)) /\
-  Forall (fun s => (contains events_sub (rkey (ds_target s)) = true /\ rec_rev (ds_target s) <= tr /\ tr <> 0 /\
+  Forall (fun s => (is_expirable evp (rkey (ds_target s)) = true /\ rec_rev (ds_target s) <= tr /\ tr <> 0 /\
                     In (ds_target s) V)
                    \/ compaction_target R (ds_target s)) (d_trace d).
 Proof. exact scanner_compact_steps. Qed.
 Print Assumptions C17_scanner_expiry_targets.
 
-(* C17_only_events at full strength ("the key is under <prefix>/events/") is refuted by the substring test:
-   a pod in a namespace called events is expired like an Event (finding C17-F1) *)
+(* C17_only_events, engine path: Backend.create hands a TTL to the engine only for Event keys *)
+Theorem C17_only_events_ttl_choice : forall ettl prefix k, create_ttl ettl prefix k <> 0 -> is_event_key prefix k = true.
+Proof. exact create_ttl_event. Qed.
+Print Assumptions C17_only_events_ttl_choice.
+
 Definition pfx : bytes := [47;114].                                                    (* "/r" *)
 Definition k_event : bytes := pfx ++ events_sub ++ [110;47;101].                       (* "/r/events/n/e" *)
 Definition k_lookalike : bytes := pfx ++ [47;112;111;100;115] ++ events_sub ++ [112].  (* "/r/pods/events/p" *)
@@ -27,38 +40,15 @@ Definition exS : store :=
   [RIdx k_event 5 false; RVer k_event 5 [1]; RIdx k_lookalike 6 false; RVer k_lookalike 6 [2];
    RIdx k_plain 7 false; RVer k_plain 7 [3]].
 (* marks: (7, t=0); now = 400, ttl = 300: timeout revision 7 *)
-Definition exRun := scanner_compact false 300 400 9 (pfx ++ [47]) (pfx ++ [48]) [(7, 0)] (init_d exS []).
+Definition exRun := scanner_compact (events_prefix pfx) false 300 400 9 (pfx ++ [47]) (pfx ++ [48]) [(7, 0)] (init_d exS []).
 
-Theorem C17_only_events_refuted :
-  is_event_key pfx k_lookalike = false /\ contains events_sub k_lookalike = true /\
-  In (RVer k_lookalike 6 [2]) exS /\ ~ In (RVer k_lookalike 6 [2]) (d_store (snd exRun)) /\
-  get_at (d_store (snd exRun)) max_rev k_lookalike = None.
-Proof.
-  split; [vm_compute; reflexivity|]. split; [vm_compute; reflexivity|]. split; [vm_compute; auto 10|].
-  split; [|vm_compute; reflexivity].
-  vm_compute. intros [H|[H|[]]]; discriminate.
-Qed.
-Print Assumptions C17_only_events_refuted.
-
-(* ... and holds on every store without such look-alike keys *)
-Theorem C17_only_events_except_F1 : forall prefix sup ttl now R lo hi q V oc,
-  (forall y, In y V -> contains events_sub (rkey y) = true -> is_event_key prefix (rkey y) = true) ->
-  let '(q', tr, d) := scanner_compact sup ttl now R lo hi q (init_d V oc) in
-  Forall (fun s => is_event_key prefix (rkey (ds_target s)) = true \/ compaction_target R (ds_target s)) (d_trace d).
-Proof. exact scanner_only_events_except_lookalikes. Qed.
-Print Assumptions C17_only_events_except_F1.
-
-(* the TTL handed to the engine by Backend.create: same test, same verdicts *)
-Theorem C17_ttl_choice_contains : forall ettl k, create_ttl ettl k <> 0 -> contains events_sub k = true.
-Proof. exact create_ttl_contains. Qed.
-Print Assumptions C17_ttl_choice_contains.
-Theorem C17_ttl_choice_refuted : create_ttl 3600 k_lookalike <> 0 /\ is_event_key pfx k_lookalike = false.
-Proof. split; [vm_compute; discriminate|vm_compute; reflexivity]. Qed.
-Print Assumptions C17_ttl_choice_refuted.
-Theorem C17_ttl_choice_except_F1 : forall prefix ettl k,
-  (contains events_sub k = true -> is_event_key prefix k = true) -> create_ttl ettl k <> 0 -> is_event_key prefix k = true.
-Proof. exact create_ttl_event_except_lookalikes. Qed.
-Print Assumptions C17_ttl_choice_except_F1.
+(* the former defect (fixed: C17-F1): the substring test bytes.Contains(key, "/events/") also matched a pod in a
+   namespace called events; the prefix test does not, and the look-alike survives the pass that expires the Event *)
+Example C17_ex_lookalike_survives :
+  contains events_sub k_lookalike = true /\ is_event_key pfx k_lookalike = false /\
+  create_ttl 3600 pfx k_lookalike = 0 /\ create_ttl 3600 pfx k_event = 3600 /\
+  d_store (snd exRun) = [RIdx k_lookalike 6 false; RVer k_lookalike 6 [2]; RIdx k_plain 7 false; RVer k_plain 7 [3]].
+Proof. vm_compute. repeat split. Qed.
 
 (* C17_not_young, the queue: what getTimeoutRevision pops is at least ttl old, and it returns the last popped *)
 Theorem C17_not_young_marks : forall ttl now q prev,
@@ -68,13 +58,13 @@ Theorem C17_not_young_marks : forall ttl now q prev,
 Proof. exact pop_marks_spec. Qed.
 Print Assumptions C17_not_young_marks.
 
-(* C17_whole: every record of an /events/ key in the range at or below the timeout revision (in a
+(* C17_whole: every record of an Event key in the range at or below the timeout revision (in a
    well-formed store: index revision <= timeout revision) => one fault-free pass removes index and versions
    together; Get(latest) = absent; Create succeeds with normal semantics; nothing else is added *)
-Theorem C17_whole : forall R tr lo hi V k,
-  tr <> 0 -> contains events_sub k = true -> bleb lo k && bltb k hi = true ->
+Theorem C17_whole : forall evp R tr lo hi V k,
+  tr <> 0 -> is_expirable evp k = true -> bleb lo k && bltb k hi = true ->
   (forall x, In x V -> rkey x = k -> rec_rev x <= tr) ->
-  let d := compact_range R tr lo hi (init_d V []) in
+  let d := compact_range_e evp R tr lo hi (init_d V []) in
   (forall x, In x (d_store d) -> rkey x <> k) /\
   (forall x, In x (d_store d) -> In x V) /\
   get_at (d_store d) max_rev k = None /\
@@ -83,12 +73,12 @@ Proof. exact expiry_whole. Qed.
 Print Assumptions C17_whole.
 
 (* C17_others_untouched: whatever deletes fail or wherever the pass dies, a stored record that is neither
-   an expiry target (key containing "/events/", revision <= timeout revision) nor a compaction target
+   an expiry target (key under the events prefix, revision <= timeout revision) nor a compaction target
    (C07) is still stored afterwards: non-event keys, Events with a newer index, young versions *)
-Theorem C17_others_untouched : forall sup ttl now R lo hi q V os,
+Theorem C17_others_untouched : forall evp sup ttl now R lo hi q V os,
   idx_unique V ->
-  let '(q', tr, d) := scanner_compact sup ttl now R lo hi q (init_d V (map (fun o => ([], o)) os)) in
-  forall y, In y V -> ~ expiry_target tr y -> ~ compaction_target R y -> In y (d_store d).
+  let '(q', tr, d) := scanner_compact evp sup ttl now R lo hi q (init_d V (map (fun o => ([], o)) os)) in
+  forall y, In y V -> ~ expiry_target evp tr y -> ~ compaction_target R y -> In y (d_store d).
 Proof. exact scanner_others_untouched. Qed.
 Print Assumptions C17_others_untouched.
 
@@ -129,25 +119,22 @@ Theorem C17_memkv_ttl_refuted :
 Proof. vm_compute. repeat split. Qed.
 Print Assumptions C17_memkv_ttl_refuted.
 
-(* the executable oracle accepts what the model produces for the TTL-choice cases, or names finding 1 exactly on
-   its signature (the scanner and engine-TTL cases of the oracle are not covered by a soundness lemma) *)
+(* the executable oracle accepts what the model produces for the TTL-choice cases (the scanner and engine-TTL
+   cases of the oracle are not covered by a soundness lemma) *)
 Theorem C17_oracle_sound_ttl_choice_partial : forall prefix ettl k ttls,
-  c17_check (KTtlChoice prefix ettl k ttls) = true ->
-  c17_oracle (KTtlChoice prefix ettl k ttls) = None \/
-  (c17_oracle (KTtlChoice prefix ettl k ttls) = Some 1 /\ contains events_sub k = true /\ is_event_key prefix k = false).
+  c17_check (KTtlChoice prefix ettl k ttls) = true -> c17_oracle (KTtlChoice prefix ettl k ttls) = None.
 Proof. exact c17_oracle_sound_ttl_choice. Qed.
 Print Assumptions C17_oracle_sound_ttl_choice_partial.
 
 (* ---------- non-vacuity ---------- *)
 Example C17_ex_run :
   fst exRun = ([(9, 400)], 7) /\
-  d_store (snd exRun) = [RIdx k_plain 7 false; RVer k_plain 7 [3]] /\
   map (fun s => (ds_kind s, ds_target s)) (rev (d_trace (snd exRun)))
-  = [(KDelCur, RIdx k_event 5 false); (KDel, RVer k_event 5 [1]); (KDelCur, RIdx k_lookalike 6 false); (KDel, RVer k_lookalike 6 [2])].
+  = [(KDelCur, RIdx k_event 5 false); (KDel, RVer k_event 5 [1])].
 Proof. vm_compute. repeat split. Qed.
 
 Example C17_ex_whole_hyps :
-  7 <> 0 /\ contains events_sub k_event = true /\ bleb (pfx ++ [47]) k_event && bltb k_event (pfx ++ [48]) = true /\
+  7 <> 0 /\ is_expirable (events_prefix pfx) k_event = true /\ bleb (pfx ++ [47]) k_event && bltb k_event (pfx ++ [48]) = true /\
   (forall x, In x exS -> rkey x = k_event -> rec_rev x <= 7).
 Proof.
   split; [discriminate|]. split; [vm_compute; reflexivity|]. split; [vm_compute; reflexivity|].
@@ -158,7 +145,7 @@ Qed.
    engine delete: the index compare fails, version 5 goes, index 10 and version 10 stay; the key reads the
    new value, Update from 10 succeeds, Create is refused *)
 Definition exWin :=
-  scanner_compact false 300 400 9 (pfx ++ [47]) (pfx ++ [48]) [(7, 0)]
+  scanner_compact (events_prefix pfx) false 300 400 9 (pfx ++ [47]) (pfx ++ [48]) [(7, 0)]
     (init_d [RIdx k_event 5 false; RVer k_event 5 [1]] [([RIdx k_event 10 false; RVer k_event 10 [2]], OOk)]).
 Example C17_ex_window :
   sort_by rec_ltb (d_store (snd exWin)) = [RIdx k_event 10 false; RVer k_event 10 [2]] /\
@@ -185,17 +172,17 @@ Definition burst : list mark := map (fun i => (5, N.of_nat i)) (seq 0 70).
 Definition k_event8 : bytes := pfx ++ events_sub ++ [110;47;102].
 Example C17_ex_burst :
   let V := [RIdx k_event 5 false; RVer k_event 5 [1]; RIdx k_event8 8 false; RVer k_event8 8 [2]] in
-  let '(q1, tr1, d1) := scanner_compact false 600 760 9 (pfx ++ [47]) (pfx ++ [48]) (burst ++ [(8, 350)]) (init_d V []) in
-  let '(q2, tr2, d2) := scanner_compact false 600 1500 9 (pfx ++ [47]) (pfx ++ [48]) q1 (init_d (d_store d1) []) in
+  let '(q1, tr1, d1) := scanner_compact (events_prefix pfx) false 600 760 9 (pfx ++ [47]) (pfx ++ [48]) (burst ++ [(8, 350)]) (init_d V []) in
+  let '(q2, tr2, d2) := scanner_compact (events_prefix pfx) false 600 1500 9 (pfx ++ [47]) (pfx ++ [48]) q1 (init_d (d_store d1) []) in
   tr1 = 5 /\ q1 = [(8, 350); (9, 760)] /\ d_store d1 = [RIdx k_event8 8 false; RVer k_event8 8 [2]] /\
   tr2 = 9 /\ d_store d2 = [].
 Proof. vm_compute. repeat split. Qed.
 
 (* a young Event (index above the timeout revision) and a mark younger than the TTL: nothing expires *)
 Example C17_ex_young :
-  d_store (snd (scanner_compact false 300 200 9 (pfx ++ [47]) (pfx ++ [48]) [(7, 0)] (init_d exS []))) = exS /\
-  d_store (snd (scanner_compact false 300 400 9 (pfx ++ [47]) (pfx ++ [48]) [(4, 0)] (init_d exS []))) = exS /\
-  d_store (snd (scanner_compact true 300 400 9 (pfx ++ [47]) (pfx ++ [48]) [(7, 0)] (init_d exS []))) = exS.
+  d_store (snd (scanner_compact (events_prefix pfx) false 300 200 9 (pfx ++ [47]) (pfx ++ [48]) [(7, 0)] (init_d exS []))) = exS /\
+  d_store (snd (scanner_compact (events_prefix pfx) false 300 400 9 (pfx ++ [47]) (pfx ++ [48]) [(4, 0)] (init_d exS []))) = exS /\
+  d_store (snd (scanner_compact (events_prefix pfx) true 300 400 9 (pfx ++ [47]) (pfx ++ [48]) [(7, 0)] (init_d exS []))) = exS.
 Proof. vm_compute. repeat split. Qed.
 
 Example C17_ex_idx_unique : idx_unique exS.
